@@ -1,12 +1,19 @@
 (* Tie obligations: bytecode format 1.1 numbering as found in the Go source today equals the
-   pinned (documented) numbering.  Breaks when opcodes, typecodes, bind nibbles, magic,
-   version, jump width, buffer sizes or operand classes are changed in /repo. *)
+   pinned (documented) numbering.  Breaks when opcodes, typecodes, bind nibbles, magic, version,
+   jump width or the disassembler's operand classes are changed in /repo.  Buffer sizes are NOT
+   tied: no property depends on them (the load theorems hold for every partition of the bytes). *)
+From Coq Require Import List NArith String.
 From BCL Require Gen.GenTables Spec.Pinned.
+Import ListNotations.
+Open Scope string_scope.
+Fixpoint get (k : string) (l : list (string * N)) : option N :=
+  match l with [] => None | (k', v) :: r => if String.eqb k k' then Some v else get k r end.
 Lemma tie_opcodes : GenTables.opcodes = Pinned.opcodes. Proof. reflexivity. Qed.
 Lemma tie_typecodes : GenTables.typecodes = Pinned.typecodes. Proof. reflexivity. Qed.
 Lemma tie_bind_selectors : GenTables.bind_selectors = Pinned.bind_selectors. Proof. reflexivity. Qed.
 Lemma tie_bind_targets : GenTables.bind_targets = Pinned.bind_targets. Proof. reflexivity. Qed.
 Lemma tie_magic : GenTables.magic = Pinned.magic. Proof. reflexivity. Qed.
-Lemma tie_constants : GenTables.constants = Pinned.constants. Proof. reflexivity. Qed.
-Lemma tie_buffer_sizes : GenTables.buffer_sizes = Pinned.buffer_sizes. Proof. reflexivity. Qed.
+Lemma tie_version : get "bytecodeMajor" GenTables.constants = Some 1%N /\ get "bytecodeMinor" GenTables.constants = Some 1%N
+  /\ get "jumpByteLength" GenTables.constants = Some 2%N.
+Proof. repeat split; reflexivity. Qed.
 Lemma tie_disasm_classes : GenTables.disasm_classes = Pinned.disasm_classes. Proof. reflexivity. Qed.
